@@ -283,6 +283,7 @@ func checkC05(c *Ctx, r *Report) {
 	}
 	tag := nb.Of(wd.Tag).String()
 	r.Check(tag == "(reflect.Value).Kind("+modPath+".chaseValue($v))", "R05e", c.FnName(NV), "kind of the chased value", c.Pos(wd.Head.Instrs[0].Pos()), tag, "the kind dispatch of normalizeValue is not on chaseValue(v): pointers or interfaces around a value make it take another path ("+tag+")")
+	verbatimNameRule(c, r)
 }
 
 func kindNameOf(t types.Type) string {
@@ -335,4 +336,117 @@ func onlyReturnsBetween(a, b *ssa.BasicBlock) bool {
 		cur = cur.Succs[0]
 	}
 	return false
+}
+
+// verbatimNameRule (R05f): a struct field is stored under the name part of its tag exactly as written —
+// a map key arrives verbatim, so any rewriting of the tag's name (case folding, replacement) makes the
+// struct form of a document normalize to a different tree than its map form. Decided on the value
+// parseTags returns as the name: between the tag parameter and the result only splitting, indexing,
+// slicing and trimming of white space are applied.
+func verbatimNameRule(c *Ctx, r *Report) {
+	r.Rule("R05f", "the field name parseTags returns is the name part of the tag as written: only Split/Cut/index/slice/TrimSpace lie between the tag parameter and the result", 1)
+	fn := c.Func("", "parseTags")
+	name := c.FnName(fn)
+	if len(fn.Params) == 0 || fn.Signature.Results().Len() < 1 {
+		r.add("R05f", name, "name part verbatim", c.Pos(fn.Pos()), Undecided, true, "parseTags has no parameter / result")
+		return
+	}
+	preserving := map[string]bool{"strings.Split": true, "strings.SplitN": true, "strings.Cut": true, "strings.TrimSpace": true, "strings.SplitAfter": false}
+	rewriting := map[string]bool{"strings.ToLower": true, "strings.ToUpper": true, "strings.Title": true, "strings.ToTitle": true, "strings.Replace": true, "strings.ReplaceAll": true,
+		"strings.Map": true, "strings.ToLowerSpecial": true, "strings.ToUpperSpecial": true, "strings.ToValidUTF8": true, "strings.Trim": true, "strings.TrimLeft": true, "strings.TrimRight": true,
+		"strings.TrimPrefix": true, "strings.TrimSuffix": true, "strings.TrimFunc": true, "strings.Repeat": true, "strings.Join": true, "strings.Fields": true, "fmt.Sprintf": true}
+	n := 0
+	for _, ret := range Returns(fn) {
+		n++
+		var bad, unknown []string
+		reached := false
+		seen := map[ssa.Value]bool{}
+		var walk func(v ssa.Value, d int)
+		walk = func(v ssa.Value, d int) {
+			if seen[v] || d > 40 {
+				return
+			}
+			seen[v] = true
+			switch x := v.(type) {
+			case *ssa.Parameter:
+				if x == fn.Params[0] {
+					reached = true
+				}
+			case *ssa.Const:
+				// a constant name: not derived from the tag (e.g. "" for no tag) — nothing to follow
+			case *ssa.Call:
+				f := x.Call.StaticCallee()
+				switch {
+				case f == nil:
+					unknown = append(unknown, "dynamic call")
+				case preserving[f.String()]:
+					walk(x.Call.Args[0], d+1)
+				case rewriting[f.String()]:
+					bad = append(bad, f.String())
+					walk(x.Call.Args[0], d+1)
+				default:
+					unknown = append(unknown, f.String())
+					for _, a := range x.Call.Args {
+						if b, ok := a.Type().Underlying().(*types.Basic); ok && b.Info()&types.IsString != 0 {
+							walk(a, d+1)
+						}
+					}
+				}
+			case *ssa.Extract:
+				walk(x.Tuple, d+1)
+			case *ssa.UnOp:
+				if x.Op == token.MUL {
+					switch a := x.X.(type) {
+					case *ssa.IndexAddr:
+						walk(a.X, d+1)
+					default:
+						if vals, ok := localStores(x.X); ok {
+							for _, s := range vals {
+								walk(s, d+1)
+							}
+						} else {
+							unknown = append(unknown, "load "+x.X.Name())
+						}
+					}
+				}
+			case *ssa.Slice:
+				walk(x.X, d+1)
+			case *ssa.Index:
+				walk(x.X, d+1)
+			case *ssa.Lookup:
+				walk(x.X, d+1)
+			case *ssa.Phi:
+				for _, e := range x.Edges {
+					walk(e, d+1)
+				}
+			case *ssa.BinOp:
+				if x.Op == token.ADD {
+					bad = append(bad, "string concatenation")
+				}
+				walk(x.X, d+1)
+				walk(x.Y, d+1)
+			case *ssa.Convert:
+				bad = append(bad, "conversion")
+				walk(x.X, d+1)
+			case *ssa.ChangeType:
+				walk(x.X, d+1)
+			default:
+				unknown = append(unknown, fmt.Sprintf("%T", v))
+			}
+		}
+		walk(RetVal(ret, 0), 0)
+		switch {
+		case len(bad) > 0:
+			r.Bad("R05f", name, "name part verbatim", c.Pos(ret.Pos()), "the name a struct field is stored under is rewritten on the way from the tag ("+strings.Join(bad, ", ")+"): a struct with such a tag normalizes to other keys than the map holding the same document")
+		case len(unknown) > 0:
+			r.add("R05f", name, "name part verbatim", c.Pos(ret.Pos()), Undecided, true, "the name passes through operations not in the table of name-preserving / rewriting operations: "+strings.Join(unknown, ", "))
+		case !reached:
+			r.Trivial("R05f", name, "name part verbatim", c.Pos(ret.Pos()), "this return does not derive the name from the tag")
+		default:
+			r.OK("R05f", name, "name part verbatim", c.Pos(ret.Pos()), "only Split / index / TrimSpace between the tag and the name")
+		}
+	}
+	if n == 0 {
+		r.add("R05f", name, "name part verbatim", c.Pos(fn.Pos()), Undecided, true, "parseTags has no return")
+	}
 }
